@@ -89,30 +89,96 @@ class FrameOnly(Contract):
     dom = lambda self, x: []
     def requires(self, c): return self.dom(c.pre['x_data'])
 
+def lam(f):
+    i = z3.FreshInt('i!lam'); return z3.Lambda([i], f(i))
+def plus1(a): return lam(lambda i: z3.If(i == 0, a[i] + 1, a[i]))
+R_ = z3.RealSort()
+C2 = 2 / z3.Function('m_sqrt', R_, R_)(z3.Real('math_pi'))
+
+
+class PBFlow(Contract):
+    """pullbacks that combine other kernels: xbar' = xbar + ybar (*) g with g = f'(x) written as a composition of spec functions
+    over closed lambda arrays; proved for all D through the spec-view chain (vc/dataflow.py) over the callee contracts"""
+    arrays = ('ybar_data', 'x_data', 'y_data', 'out'); modifies = ('out',); returns = 'any'
+    cfgs = {'distinct': {}}
+    property_ids = ('C03', 'C06', 'C14')
+    dataflow = True; timeout_ms = 6000; cex_D = ()
+    dom = lambda self, x: []
+    def requires(self, c): return self.dom(c.pre['x_data'])
+    def g(self, c): raise NotImplementedError               # closed lambda array
+    def incr(self, c, j): return S.CONV(c.pre['ybar_data'], self.g(c), j)
+    def ensures(self, c):
+        o0 = c.pre['out']; o = c.cur('out')
+        return [("xbar' = xbar + ybar (*) g,  g = %s" % self.doc, c.forall(0, c.D, lambda j: o[j] == o0[j] + self.incr(c, j)))]
+
 @register
-class PbTanSec(FrameOnly):
-    qual = A('_pb_tansec'); arrays = ('ybar_data', 'zbar_data', 'x_data', 'y_data', 'z_data', 'out')
+class PbTanSec(PBFlow):
+    qual = A('_pb_tansec'); arrays = ('ybar_data', 'zbar_data', 'x_data', 'y_data', 'z_data', 'out'); doc = "(ybar + 2 zbar (*) y) (*) z"
+    def incr(self, c, j):
+        p = c.pre; zb2 = lam(lambda i: 2 * p['zbar_data'][i])
+        T = lam(lambda i: S.CONV(zb2, p['y_data'], i) + p['ybar_data'][i])
+        return S.CONV(T, p['z_data'], j)
     def oracle(self, inp, scal, cfg):
         T = SI.add(inp['ybar_data'], SI.scale(SI.conv(inp['zbar_data'], inp['y_data']), 2))
         return {'out': SI.add(inp['out'], SI.conv(T, inp['z_data']))}
 
 @register
-class PbReciprocal(FrameOnly):
-    qual = A('_pb_reciprocal'); dom = lambda self, x: [x[0] != 0]
+class PbReciprocal(PBFlow):
+    qual = A('_pb_reciprocal'); dom = lambda self, x: [x[0] != 0]; doc = "-1/x^2"
+    def g(self, c):
+        x = c.pre['x_data']; sq = lam(lambda i: S.CONV(x, x, i)); return lam(lambda i: -S.RECIP(sq, i))
     def oracle(self, inp, scal, cfg):
         g = [-v for v in SI.recip(SI.conv(inp['x_data'], inp['x_data']))]
         return {'out': SI.add(inp['out'], SI.conv(inp['ybar_data'], g))}
 
 @register
-class PbExpm1(FrameOnly):
-    qual = A('_pb_expm1')
+class PbExpm1(PBFlow):
+    qual = A('_pb_expm1'); doc = "exp(x)"
+    def g(self, c): x = c.pre['x_data']; return lam(lambda i: S.EXP(x, i))
     def oracle(self, inp, scal, cfg): return {'out': SI.add(inp['out'], SI.conv(inp['ybar_data'], SI.exp(inp['x_data'])))}
 
 @register
-class PbLog1p(FrameOnly):
-    qual = A('_pb_log1p'); returns = 'out'; dom = lambda self, x: [x[0] + 1 != 0]
+class PbLog1p(PBFlow):
+    qual = A('_pb_log1p'); returns = 'out'; dom = lambda self, x: [x[0] + 1 != 0]; doc = "xbar + ybar / (1 + x)"
+    def incr(self, c, j): return S.QUOT(c.pre['ybar_data'], plus1(c.pre['x_data']), j)
     def oracle(self, inp, scal, cfg):
         x1 = [inp['x_data'][0] + 1] + list(inp['x_data'][1:]); return {'out': SI.add(inp['out'], SI.quot(inp['ybar_data'], x1))}
+
+@register
+class PbErf(PBFlow):
+    qual = A('_pb_erf'); doc = "2/sqrt(pi) exp(-x^2)"
+    def g(self, c):
+        x = c.pre['x_data']; nsq = lam(lambda i: -S.CONV(x, x, i)); return lam(lambda i: C2 * S.EXP(nsq, i))
+    def oracle(self, inp, scal, cfg):
+        import math; x = inp['x_data']
+        return {'out': SI.add(inp['out'], SI.conv(inp['ybar_data'], SI.scale(SI.exp([-v for v in SI.conv(x, x)]), 2 / math.sqrt(math.pi))))}
+
+@register
+class PbErfi(PBFlow):
+    qual = A('_pb_erfi'); doc = "2/sqrt(pi) exp(x^2)"
+    def g(self, c):
+        x = c.pre['x_data']; sq = lam(lambda i: S.CONV(x, x, i)); return lam(lambda i: C2 * S.EXP(sq, i))
+    def oracle(self, inp, scal, cfg):
+        import math; x = inp['x_data']
+        return {'out': SI.add(inp['out'], SI.conv(inp['ybar_data'], SI.scale(SI.exp(SI.conv(x, x)), 2 / math.sqrt(math.pi))))}
+
+@register
+class PbLogit(PBFlow):
+    qual = A('_pb_logit'); dom = lambda self, x: [x[0] - x[0] * x[0] != 0]; doc = "1/(x - x^2)"
+    def g(self, c):
+        x = c.pre['x_data']; d = lam(lambda i: x[i] - S.CONV(x, x, i)); return lam(lambda i: S.RECIP(d, i))
+    def sample_x0(self, name, rng): return round(rng.uniform(0.2, 0.8) * 16) / 16
+    def oracle(self, inp, scal, cfg):
+        x = inp['x_data']; return {'out': SI.add(inp['out'], SI.conv(inp['ybar_data'], SI.recip(SI.sub(x, SI.conv(x, x)))))}
+
+@register
+class PbExpit(PBFlow):
+    qual = A('_pb_expit'); dom = lambda self, x: [S.np('exp')(x[0]) + 1 != 0]; doc = "b - b^2, b = 1/(1 + exp(x))"
+    def g(self, c):
+        x = c.pre['x_data']; e = lam(lambda i: S.EXP(x, i)); b = lam(lambda i: S.RECIP(plus1(e), i)); return lam(lambda i: b[i] - S.CONV(b, b, i))
+    def oracle(self, inp, scal, cfg):
+        e = SI.exp(inp['x_data']); b = SI.recip([e[0] + 1] + list(e[1:]))
+        return {'out': SI.add(inp['out'], SI.conv(inp['ybar_data'], SI.sub(b, SI.conv(b, b))))}
 
 @register
 class PbAbsolute(FrameOnly):
